@@ -130,6 +130,33 @@ def run(ck, w):
         else:
             ck.ok(o, "shapes=%s" % shapes, instances=2)
 
+    # ---- 2b. patterns read from a file ---------------------------------------------------------------------------
+    o = ck.ob("C15.2b", "add_patterns_from_file gives add_pattern each non-blank line that does not START with '#', trimmed but otherwise whole "
+                        "(a pattern is never cut at a '#', split, or rewritten)")
+    fam = lib.family("excludes::add_patterns_from_file")
+    if not fam:
+        fam = [b_ for b_ in lib.family("excludes::Exclude::from_patterns_and_files")]
+    cutters = re.compile(r"<impl str>::(split|splitn|rsplit|rsplitn|split_once|rsplit_once|split_terminator|find|rfind|replace|replacen|trim_matches|"
+                         r"trim_start_matches|trim_end_matches|strip_prefix|strip_suffix|to_lowercase|to_uppercase|to_ascii_lowercase|char_indices|get)$|"
+                         r"str>::index$|ops::Index<.*> for str>::index$|<impl std::ops::Index<I> for str>::index$")
+    cut = [(fb, e) for fb in fam for e in fb.events if e.bb in fb.live and cutters.search(e.name)]
+    has_lines = any(e.name.endswith("<impl str>::lines") for fb in fam for e in fb.events if e.bb in fb.live)
+    hash_test = False
+    for fb in fam:
+        for e in fb.events:
+            if e.bb in fb.live and e.name.endswith("<impl str>::starts_with") and len(e.args) > 1 and e.args[1].get("int") == "35":
+                hash_test = True
+    if not fam or not has_lines:
+        ck.fail(o, "excludes::add_patterns_from_file", "anchor-missing", "no line-wise reading of the pattern file found")
+    elif cut:
+        fb, e = cut[0]
+        ck.fail(o, "excludes::add_patterns_from_file", "a pattern line is cut or rewritten", "%s is applied to a line of the pattern file: "
+                "patterns containing that text are no longer used as written" % e.name.split("::")[-1], e.site())
+    elif not hash_test:
+        ck.fail(o, "excludes::add_patterns_from_file", "comment lines are not recognised by starts_with('#')", "no starts_with('#') test on the lines")
+    else:
+        ck.ok(o)
+
     # ---- 3. prune really prunes ---------------------------------------------------------------------------------
     o = ck.ob("C15.3", "source walk: a child is queued (as an entry, or as a directory to descend into) only after Exclude::matches was false")
     if m:
